@@ -278,24 +278,27 @@ def gen_history(seed):
         o = operand()
         involved.append(o)
         # vary the attributes a copying / in-place path could (wrongly) make its sharing decisions on: the operand has a
-        # parse action, a custom name, its own ignorable, has already been used (streamlined), or is a named copy
+        # parse action, a custom name, its own ignorable, is a named copy, or has already been used (streamlined).
+        # The decoration goes onto a FRESH copy that nothing refers to yet (decorating a pool member that older
+        # composites already contain would make the outcome depend on whether those had been streamlined - flattened -
+        # before: add_parse_action on an And that a used composite has already flattened away no longer reaches it)
         r = rng.random()
-        if r < 0.12:
-            sts.append(["_", "action", o, rng.choice([["app", "Z"], ["none"], ["dup"]])])
-        elif r < 0.18:
-            sts.append(["_", "set_name", o, "NO"])
-        elif r < 0.26:
-            if cm2 is None:
-                cm2 = fresh("c")
-                sts.append([cm2, "Literal", "%"])
-            sts.append(["_", "ignore", o, cm2])
-        elif r < 0.36:
-            sts.append(["_", "use", o])
-        elif r < 0.44:
+        if r < 0.30:
             o2 = fresh()
-            sts.append([o2, "name", o, "k1"])
+            sts.append([o2, "copy", o] if r < 0.22 else [o2, "name", o, "k1"])
+            if r < 0.10:
+                sts.append(["_", "action", o2, rng.choice([["app", "Z"], ["none"], ["dup"]])])
+            elif r < 0.15:
+                sts.append(["_", "set_name", o2, "NO"])
+            elif r < 0.22:
+                if cm2 is None:
+                    cm2 = fresh("c")
+                    sts.append([cm2, "Literal", "%"])
+                sts.append(["_", "ignore", o2, cm2])
             involved.append(o2)
             o = o2
+        elif r < 0.40:
+            sts.append(["_", "use", o])
         how = rng.choice(["copy", "copy", "composite", "composite", "composite_of_copy", "copy_of_composite", "nested"])
         if how == "copy":
             x = copy_of(o)
@@ -320,8 +323,8 @@ def gen_history(seed):
             sts.append([MUT, "action", x, rng.choice([["const", "K"], ["drop"], ["dup"]])])
         else:
             sts.append([MUT, "set_name", x, "NN"])
-        if rng.random() < 0.3:
-            sts.append(["_", "use", x])
+        # (no use of x AFTER the operation: in the reference build that would streamline the original operands, in the
+        #  test build the copies leave_whitespace put in their place - the two builds must use the same objects)
         if rng.random() < 0.2:   # a second in-place step on the same object (e.g. lw then ignore)
             sts.append([MUT, "ignore", x, cm] if m != "ignore" else [MUT, "lw_inplace", x])
     # second, independent composites around the operands involved (built AFTER the in-place steps)
@@ -588,6 +591,15 @@ def hist_job(job):
         else:
             tie_post(b, "copy", b.env[var], src)
 
+    seen_mut = False
+    for st in prog:
+        seen_mut = seen_mut or st[0] == MUT
+        if seen_mut and st[0] == "_" and st[1] == "use":
+            # parsing with the changed composite streamlines the ORIGINAL operands in the reference build and the
+            # copies leave_whitespace() put in their place in the test build: the two builds would no longer use the
+            # same objects at the same moments (and whatever depends on "had it been streamlined when ..." differs)
+            out["skip"] = "use-after-in-place(asymmetric schedule)"
+            return out
     try:
         ref = run_history(pp, prog, False)
         tst = run_history(pp, prog, True, on_mut)
